@@ -84,7 +84,8 @@ def close(a, b, tol):
     return abs(a - b) <= tol * max(abs(b), abs(a)) + 1e-300 or abs(a - b) <= 1e-13
 
 
-CONTAINERS_Q = ('arr:u1', 'arr:u2', 'arr:i8', 'arr:f4', 'arr:f8', 'fcs:8', 'fcs:16', 'fcs:F', 'fcs:D', 'rfi:lin', 'sub:slice', 'sub:list', 'sub:revslice')
+CONTAINERS_Q = ('arr:u1', 'arr:u2', 'arr:i8', 'arr:f4', 'arr:f8', 'fcs:8', 'fcs:16', 'fcs:F', 'fcs:D', 'rfi:lin', 'sub:slice', 'sub:list', 'sub:revslice',
+                'sub:fullrev', 'sub:fullperm')
 CONTAINERS_T = CONTAINERS_Q + ('fcs:32', 'fcs:64', 'rfi:log', 'fcs:24')
 
 
@@ -182,6 +183,34 @@ def run_wide(c):
                         st, kind, fr, bad[0], bad[1], sel[bad[0]], bad[2]), one)
                     continue
                 res.ok('wide:%s' % st, True)
+    if k == 1 and kind in ('rfi:lin', 'fcs:F', 'arr:f8'):
+        # the statistics describe the events as they are NOW: asked without a channel argument, the events edited in place, asked again
+        for st in STATS:
+            one = dict(c)
+            try:
+                with warnings.catch_warnings():
+                    warnings.simplefilter('ignore')
+                    getattr(FlowCal.stats, st)(obj)
+            except Exception:
+                continue
+        obj[:, 2] = np.asarray(obj[:, 2]) * 3.0 + 1.0
+        obj[0, 4] = 1234.0
+        now = np.asarray(obj)
+        cols2 = [tuple(float(x) for x in now[:, j]) for j in range(D)]
+        for st in STATS:
+            with warnings.catch_warnings():
+                warnings.simplefilter('ignore')
+                v = np.asarray(getattr(FlowCal.stats, st)(obj))
+            exp = [ref(cols2[j])[st] for j in range(D)]
+            for j, (gv, e) in enumerate(zip(v.tolist(), exp)):
+                if e is None:
+                    continue
+                if (st == 'mode' and not any(float(gv) == float(m_) for m_ in e)) or (st != 'mode' and not close(gv, e, tol)):
+                    res.violation('wide:%s:%s:after-edit' % (st, kind), 'stats.%s(%s) after the events were edited in place: entry %d is %r, the definition on the current events gives %r' % (
+                        st, kind, j, gv, e), dict(c))
+                    break
+            else:
+                res.ok('wide:after-edit', True)
     res.sample({'container': kind, 'channels': 5, 'list_length': k, 'lists': len(lists), 'spellings': 'positions, negative positions, names, mixed; lists and tuples'})
     return res
 
@@ -238,6 +267,19 @@ def make_container(kind, M, alpha):
             f.write(buf)
         d = FlowCal.io.FCSData(path)
         return d, sub == 'F', M
+    if k == 'sub' and sub in ('fullrev', 'fullperm'):
+        # a sub-sample that keeps EVERY channel of its parent, in another order (reversed slice / name list)
+        if isfrac or D < 2:
+            return None
+        lay = dict(datatype='I', bits=[16] * D, ranges=[1024] * D, events=[list(reversed(row)) for row in M], byteord='4,3,2,1',
+                   names=['CH%d' % (D - j) for j in range(D)])
+        path = os.path.join(scratch(), 'c12f.fcs')
+        buf, _ = fcsgen.build(lay)
+        with open(path, 'wb') as f:
+            f.write(buf)
+        parent = FlowCal.io.FCSData(path)
+        d = parent[:, ::-1] if sub == 'fullrev' else parent[:, ['CH%d' % (j + 1) for j in range(D)]]
+        return d, False, M
     if k == 'sub':
         # a sub-sample of a wider parent that has already been queried by name (history: parent by name -> slice -> child by name)
         if isfrac:
